@@ -375,6 +375,30 @@ func (m *c15Model) step(s *mState, in *c15Input, out *OpResult) ([]*mState, stri
 			want = plan.Int(op.Val.M["abc"].I - op.Val.M["ab"].I + a)
 		case "cpy + 1":
 			want = plan.Int(op.Val.M["cpy"].I + 1)
+		case "'a' + 1":
+			want = plan.Rune('b')
+		case "bytes(s)":
+			want = plan.Bytes([]byte(str))
+		case "undefined":
+			want = plan.Nil()
+		case "error(s)":
+			want = plan.Value{T: "error"}
+		case "[a, {k: b}]":
+			want = plan.Value{T: "array", A: []plan.Value{plan.Int(a), plan.Map(map[string]plan.Value{"k": plan.Int(b)})}}
+		case "immutable([a])":
+			want = plan.Value{T: "array", A: []plan.Value{plan.Int(a)}}
+		case "time(b)":
+			want = plan.Value{T: "time", I: b}
+		case "a / 2.0":
+			want = plan.Float(float64(a) / 2.0)
+		case "s[1]":
+			want = plan.Rune(rune(str[1]))
+		case "{}":
+			want = plan.Map(nil)
+		case "[]":
+			want = plan.Value{T: "array"}
+		case "a == b":
+			want = plan.Bool(a == b)
 		}
 		if out.HasErr || out.Val == nil || !valueMatches(*out.Val, want, nil) {
 			return nil, fmt.Sprintf("Eval(%q) returned %s, expected %s", op.Expr, out.Outcome(), want.Key())
